@@ -95,6 +95,13 @@ class ScaleMonitor:
         self.rec.ev()
         self.rec.count("events_%s_%s" % (name, direction))
         fwd, inv = R.ref_pair(name, pd)
+        if name == "octave" and pd["low_hz"] < 1e-10:
+            # the library floors low_hz at 1e-10 inside both maps; the statement asks such a scale for mutual
+            # inverses, strict growth and continuity, not for a particular origin: recorded for the trace only
+            self.rec.count("octave_below_library_floor_not_compared_with_formula")
+            self.trace.setdefault(key, {"fwd": [], "inv": []})[direction].append((x, v))
+            self.rec.nt((name, params, direction, x))
+            return
         try:
             want = fwd(x) if direction == "fwd" else inv(x)
         except (ValueError, ZeroDivisionError, OverflowError):
@@ -182,9 +189,15 @@ def run_case(case, rec, mon=None):
         fwd, inv = R.ref_pair(name, params)
         fs = _probes(case)
         use_np = case.get("np_scalar", False)
-        for f in fs:
+        int_types = [int, np.int64, np.int32]
+        for j, f in enumerate(fs):
             f = float(f)
-            s = sc.hertz_to_scale(np.float64(f) if use_np else f)
+            arg = np.float64(f) if use_np else f
+            if f == int(f) and j % 2 == 0:
+                # a whole number of Hertz handed over as an integer type
+                arg = int_types[(j // 2) % 3](f)
+                rec.count("integer_typed_arguments")
+            s = sc.hertz_to_scale(arg)
             f2 = sc.scale_to_hertz(s)
             rec.count("roundtrips_f_s_f")
             if not abs(float(f2) - f) <= RT * max(1.0, abs(f)):
@@ -198,9 +211,14 @@ def run_case(case, rec, mon=None):
             for b in R.BARK_BREAKS_SCALE:
                 ss += [b, np.nextafter(b, 0), np.nextafter(b, 99), b - 1e-9, b + 1e-9, b - 1e-3, b + 1e-3]
         ss += [s_lo, s_hi]
+        whole = np.arange(math.ceil(s_lo), math.floor(s_hi) + 1)
+        if len(whole) > 60:
+            whole = rng.choice(whole, 60, replace=False)
+        ss += [int_types[k % 3](w) for k, w in enumerate(whole)]  # whole scale values as integer types
+        rec.count("integer_typed_arguments", len(whole))
         for s in ss:
-            s = float(s)
             f = sc.scale_to_hertz(s)
+            s = float(s)
             s2 = sc.hertz_to_scale(f)
             rec.count("roundtrips_s_f_s")
             if not abs(float(s2) - s) <= RT * max(1.0, abs(s)):
@@ -314,6 +332,9 @@ def _cases(tier, seed):
         cfgs.append(("linear", {"low_hz": 0.0, "slope_hz": 1.0}))
         cfgs.append(("octave", {"low_hz": float(np.exp(prng.uniform(np.log(1e-2), np.log(2e3))))}))
         cfgs.append(("octave", {"low_hz": 20.0}))
+        if rep % 2 == 0:
+            # any positive low_hz is accepted, however small
+            cfgs.append(("octave", {"low_hz": 1e-12 if rep % 4 == 0 else float(10 ** prng.uniform(-14, -2))}))
         for name, params in cfgs:
             cases.append({"kind": "grid", "cls": name, "params": params, "n": n, "seed": seed, "idx": idx, "np_scalar": bool(rep % 2)})
             idx += 1
